@@ -63,6 +63,8 @@ pub fn parse_block(it: &mut LexIterator) -> ParseResult {
 
     it.eat(&Token::Indent, "block")?;
     let statements = it.parse_vec(&parse_statements, "block", start)?;
+    // a block spans its statements: a comment on the first line is not part of it
+    let start = statements.first().map_or(start, |stmt| stmt.pos);
     let end = statements.last().cloned().map_or(start, |stmt| stmt.pos);
 
     it.eat(&Token::Dedent, "block")?;
